@@ -6,11 +6,21 @@ EXTENDS Integers, Sequences, FiniteSets, TLC, Json, IOUtils
 
 Hists == ndJsonDeserialize(IOEnv.HISTS)
 
+\* the float gauge over the extended reals: +Inf, -Inf and NaN travel as sentinels far outside the finite amounts of any scenario
+PInf == 1000000000
+NInf == -1000000000
+NaN == 1000000007
+XNeg(b) == IF b = PInf THEN NInf ELSE IF b = NInf THEN PInf ELSE IF b = NaN THEN NaN ELSE -b
+XAdd(a, b) == IF a = NaN \/ b = NaN THEN NaN
+              ELSE IF a = PInf THEN (IF b = NInf THEN NaN ELSE PInf)
+              ELSE IF a = NInf THEN (IF b = PInf THEN NaN ELSE NInf)
+              ELSE IF b = PInf \/ b = NInf THEN b
+              ELSE a + b
 Apply(o, v) == CASE o.k = "set" -> o.v
-                 [] o.k = "add" -> v + o.v
-                 [] o.k = "sub" -> v - o.v
-                 [] o.k = "inc" -> v + 1
-                 [] o.k = "dec" -> v - 1
+                 [] o.k = "add" -> XAdd(v, o.v)
+                 [] o.k = "sub" -> XAdd(v, XNeg(o.v))
+                 [] o.k = "inc" -> XAdd(v, 1)
+                 [] o.k = "dec" -> XAdd(v, -1)
                  [] OTHER -> v
 ResOK(o, v) == o.k = "get" => o.res = v
 
